@@ -586,6 +586,23 @@ func (n *Net) Listen(addr string) *Listener {
 	return l
 }
 
+// ListenNet is Listen for a given network ("tcp" or "udp": datagram links).
+func (n *Net) ListenNet(network, addr string) *Listener {
+	if network != "udp" {
+		return n.Listen(addr)
+	}
+	n.mu.Lock()
+	defer n.mu.Unlock()
+	ua, err := net.ResolveUDPAddr("udp", addr)
+	if err != nil {
+		panic(err)
+	}
+	l := &Listener{net: n, addr: ua}
+	l.aq.Desc = "simnet accept udp " + addr
+	n.listeners[ua.String()] = l
+	return l
+}
+
 func (l *Listener) Accept() (net.Conn, error) {
 	n := l.net
 	n.mu.Lock()
